@@ -3,50 +3,61 @@ import vlib
 class P(vlib.Prop):
     id = "C10"
     rule = ("groups stage: hand-picked package sets (budgets 0..n+1, negative and out-of-range budgets, equal sizes, same origin, replaces chains / "
-            "self / mutual / unsatisfied / absent / unparsable versions) then random sets of 0..32 packages (quick 300, thorough 10000); the real "
-            "groupByOriginAndSize is run 8 times per input so that Go's map randomisation samples iteration orders; every run must equal the model "
-            "and is judged by the grouping validator. split stage: tarfs filesystems whose files are owned by packages through tarfs.WriteHeader "
-            "(shared and deeply nested directories, unowned files, symlinks, recorded hard links, char devices), grouped by the real grouping with "
-            "budgets 0..n+2 (quick 150, thorough 2000): the real splitLayers and the real single-layer writer run, every layer is untarred by the "
-            "harness's own reader, compared with the model and judged by the layer validator (flatten = single layer, each file exactly once in its "
-            "owner's layer, per-layer parent directories, layer count); digests of every layer are recomputed. e2e stage: build.New + Context.BuildLayers "
-            "in process on tarfs with signed synthrepo packages (shared/nested directories, two packages of one origin, satisfied/unsatisfied/absent "
-            "replaces, hard link, symlink, setuid, xattr, a base-layout package shipping etc/passwd, etc/group, etc/os-release), variants accounts / path "
-            "mutations / contents.build_repositories / extra build repositories, budgets 0..n+1 (quick 48 builds, thorough 160), each configuration also "
-            "built without a layering block: judged by the same verified validator with OWNERSHIP TAKEN FROM THE PACKAGES' OWN FILE LISTS (not from tarfs's "
-            "Package()) and the groups of the real grouping on the packages of the image's installed database; flatten compared modulo the content of "
-            "etc/apko.json; layer count against the budget. Non-trivial: >= 2 packages / >= 3 nodes / >= 5 entries.")
+            "self / mutual / unsatisfied / absent / unparsable versions, packages WITHOUT an origin with replaces into and out of their shared group, "
+            "InstalledSize sums that wrap around 2^64: two halves, max+1, wrapped ties, through replaces) then random sets of 0..32 packages (quick 300, "
+            "thorough 10000; 1/6 without origin, 1/12 with a size near 2^63/2^64); the real groupByOriginAndSize is run 8 times per input so that Go's map "
+            "randomisation samples iteration orders; every run must equal the model and is judged by the grouping validator. split stage: tarfs filesystems "
+            "whose files are owned by packages through tarfs.WriteHeader (shared and deeply nested directories, sibling directories whose names are string "
+            "prefixes of each other, unowned files, symlinks, a symlink-only package, recorded hard links across directories and naming other links, char "
+            "devices), grouped by the real grouping with budgets 0..n+2 (quick 150, thorough 2000): the real splitLayers and the real single-layer writer run, "
+            "every layer is untarred by the harness's own reader, compared with the model and judged by the layer validator (flatten = single layer, each file "
+            "exactly once in its owner's layer, per-layer parent directories, hard-link targets earlier in the link's own layer, layer count); digests of every "
+            "layer are recomputed. e2e stage: build.New + Context.BuildLayers in process on tarfs (behind a recording wrapper) with signed synthrepo packages "
+            "(universes shared: shared/nested directories, two packages of one origin, satisfied/unsatisfied/absent replaces, hard link, symlink, setuid, xattr, "
+            "a base-layout package shipping etc/passwd, etc/group, etc/os-release; links: busybox-style hard-linked applets in several directories, a symlink-only "
+            "package of installed size 0, two packages without origin one of which replaces a package with one, prefix sibling directories, a `busybox` package "
+            "whose manifest makes apko create unowned applet symlinks), variants accounts / path mutations / contents.build_repositories / extra build "
+            "repositories, budgets 0..n+1 (quick 72 builds, thorough ~250), each configuration also built without a layering block: judged by the same verified "
+            "validator with OWNERSHIP TAKEN FROM THE PACKAGES' OWN FILE LISTS (not from tarfs's Package()) and the groups of the real grouping on the packages of "
+            "the image's installed database; flatten compared modulo the content of etc/apko.json; layer count against the budget; the ORDER of the build steps "
+            "observed on the filesystem interface (installer, accounts, apko.json, path mutations, busybox links, SetRepositories, start of the walk) must be the "
+            "order the step model (goextract -> Generated/C10Steps.v, Model/BuildSteps.v) gives for the configuration. Non-trivial: >= 2 packages / >= 3 nodes / >= 5 entries.")
     stages = (
         dict(name="groups", cmd="c10", args=lambda t, s: ["-stage", "groups"]),
         dict(name="split", cmd="c10", args=lambda t, s: ["-stage", "split"]),
         dict(name="e2e", cmd="c10", args=lambda t, s: ["-stage", "e2e"]),
     )
-    watch = ("pkg/build/layers.go", "pkg/build/tarball.go", "pkg/build/build.go", "pkg/tarfs/fs.go")
+    watch = ("pkg/build/layers.go", "pkg/build/tarball.go", "pkg/build/build.go", "pkg/build/build_implementation.go", "pkg/build/apk.go", "pkg/tarfs/fs.go")
     assumptions = (
         "package names in the installed set are distinct (the model carries the partition reachable from Go's byOrigin/byPackage maps)",
         "directories carry no owning package (tarfs gives only regular files, symlinks and hard links a tar entry); c10_flatten states it as a hypothesis (shown necessary) and the harness reports a directory with an owner",
-        "a hard link is owned by its target's package and listed after it (tarfs: a link shares the node; C06: a link before its target is not extractable); c10_flatten states it (LinksWithTarget, shown necessary)",
+        "a hard link is owned by its target's package and listed after it (tarfs: a link shares the node; C06: a link before its target is not extractable); c10_flatten / c10_flatten_walk_links / c10_layers_self_contained state it (LinksWithTarget, LinksShareOwner; shown necessary)",
         "apk.ResolvePackageNameVersionPin / ParseVersion / SatisfiedBy are functions supplied from outside (tabulated from the real functions per case)",
-        "InstalledSize sums do not overflow uint64",
+        "InstalledSize of one package is below 2^64 (a uint64); sums wrap modulo 2^64 in the model as in the code",
         "a budget of 0 yields one group plus the top layer (the code's stated intent), read as within 'budget plus the top layer' only for budget >= 1",
+        "c10_build_serialises_same_state / c10_build_flatten: what each build step does to the filesystem is a parameter (any semantics related step by step, reads acting as the identity); only the ORDER of the steps is read from the source",
     )
-    level_text = ("Proved, about an executable model of groupByOriginAndSize/merge/replacesGroup and splitLayers/alignStacks. Grouping, for every package list with "
-                  "distinct names, every budget and every iteration order of the Go maps: c10_group_count, c10_negative_budget_one_group, c10_groups_partition (FULL: "
-                  "each package in exactly one group; same origin => same group; satisfied replaces => same group), c10_group_order_invariant (FULL: the same list "
-                  "of groups, and the same error behaviour, for all orders), c10_groups_ok (GroupsOk for budget <> 0; budget 0 is finding C10-F1). Layers, for every "
-                  "sequence in the envelope WalkSeq (c10_walk_in_envelope: the walk of every tree with distinct child names), every grouping and ownership map: "
-                  "c10_each_file_once (FULL), c10_layers_wellformed (FULL: parents first, no path twice, in every layer), c10_flatten (FULL incl. hard-link entries whose "
-                  "target is an earlier non-directory with the same owner; directories unowned: the reference extractor accepts the layers in order and the single "
-                  "layer and yields the same canonical tree), c10_flatten_walk (= the tree, C06 envelope), c10_layers_ok (LayersOk); both side conditions of c10_flatten "
-                  "are shown necessary by refutations. The validators decide the specification (c10_groups_validator_decides, c10_layers_validator_decides, both <->). "
-                  "On every run the real code's output is compared with the model (groups, split) and judged by these validators (groups, split, e2e).")
-    level_note = ("trusted: Coq kernel, Go harness/printer and its tar reader, synthrepo; modelled not verified: Go text of layers.go, the apk version functions (tabulated), "
-                  "archive/tar and pgzip; correspondence is differential testing; Context.BuildLayers (buildImage, postBuildSetApk, installer, mutateAccounts) is exercised "
-                  "end to end and judged on its outputs, not modelled")
+    level_text = ("Proved, about an executable model of groupByOriginAndSize/merge/replacesGroup (uint64 size wrap included), splitLayers/alignStacks and of the step order of "
+                  "Context.BuildLayers. Grouping, for every package list with distinct names, every budget, every size and every iteration order of the Go maps: c10_group_count, "
+                  "c10_negative_budget_one_group, c10_groups_partition (FULL: each package in exactly one group; same origin => same group; satisfied replaces => same group), "
+                  "c10_group_order_invariant (FULL), c10_groups_ok (GroupsOk for budget <> 0; budget 0 is finding C10-F1); c10_size_wraps (sort key = sum mod 2^64), "
+                  "c10_groups_descending (FULL, wrapped sizes), c10_groups_descending_true_size_partial (true sizes when no sum reaches 2^64) and _refuted (2^63 + 2^63). Layers, for every "
+                  "sequence in the envelope WalkSeq, every grouping and ownership map: c10_each_file_once (FULL), c10_layers_wellformed (FULL), c10_layers_self_contained (FULL: every hard "
+                  "link's target is an earlier non-directory of the link's own layer), c10_flatten (FULL incl. hard-link entries), c10_flatten_walk and c10_flatten_walk_links (the layers of the "
+                  "walk of a tree — with recorded hard links, C06's envelope wfl_forest, links owned like their targets — ARE the tree), c10_layers_ok / c10_layers_ok_walk_links (LayersOk, five "
+                  "clauses); every side condition is shown necessary by a refutation. Build order, for every configuration (valuation of the condition texts read from the source): "
+                  "c10_build_order (both builds serialise after the same filesystem-changing steps, nothing after), c10_repositories_rewritten_last, c10_build_arguments, "
+                  "c10_build_serialises_same_state, c10_build_flatten. The validators decide the specification (c10_groups_validator_decides, c10_layers_validator_decides, both <->). "
+                  "On every run the real code's output is compared with the model (groups, split, observed step order) and judged by these validators (groups, split, e2e).")
+    level_note = ("trusted: Coq kernel, Go harness/printer and its tar reader, synthrepo, the recording filesystem wrapper; modelled not verified: Go text of layers.go, the apk version "
+                  "functions (tabulated), archive/tar and pgzip; the step lists of the build are read from the source by goextract (call order, conditions, arguments), what each step does is "
+                  "a parameter of the theorems and is exercised end to end (installer, mutateAccounts, mutatePaths, busybox links, SetRepositories), not modelled; correspondence is "
+                  "differential testing")
     design_ref = "DESIGN.md 7 C10/C06, Appendix A.3"
     modelled_not_verified = ("groupByOriginAndSize, merge, replacesGroup, splitLayers and alignStacks are modelled by hand (Model/Layers.v); pointer identity of "
                              "groups and of *file stack elements is modelled by package-name membership and path equality (the in-place mutation of a stack element's "
-                             "ModTime is unobservable and not modelled); Context.buildLayers itself (strategy/base-image/negative-budget checks, buildImage, "
-                             "postBuildSetApk) is run end to end but has no Coq model")
+                             "ModTime is unobservable and not modelled); of Context.BuildLayers / BuildLayer / buildLayers / buildImage / postBuildSetApk the ORDER and the "
+                             "conditions of the calls are translated by goextract (Generated/C10Steps.v) and compared with the observed order of effects; the effect of each "
+                             "step (installer, account and path mutations, s6, busybox links, char devices, SetRepositories) has no Coq model")
 
 PROP = P()
